@@ -3,7 +3,7 @@
    spline of C01_Model.v / C08_Model.v (coq/C09_Evals.v), so every token is predicted: the indices returned by
    Locate and the values of all queries, each on the used object, on a fresh object with the same prefactor
    and (Interpolate / Derivative) on a fresh object with prefactor 1; the prefactor after every
-   Set_Prefactor / Multiply; EXIT.  `_` (not compared) remains only for the 2-D Global_* calls.
+   Set_Prefactor / Multiply; EXIT; the 2-D Global_* values too (glob2 of C09_Model.v).
    The object is built by the model's constructors (construct1 / construct1_rows / construct2 / construct2_rows of
    C09_Model.v) from the raw tables and the unit arguments given in the case (omitted ones = the default -1.0). *)
 open Common
@@ -180,7 +180,14 @@ let query2 r (tab : unit -> tab2) (getst : unit -> float state2) (apply : float 
        | O2Value (_, _, _), O2Value (_, _, _), x -> bad2 x
        | O2Value (_, _, _), x, _ -> bad2 x
        | x, _, _ -> bad2 x); true
-  | "gm" | "gM" -> put_w "_"; put_w "_"; put_w "_"; put_w "_"; true
+  | "gm" | "gM" ->                                   (* Interpolation_2D::Global_Minimum / Global_Maximum: used, fresh with the same prefactor, both extrema of a new object *)
+      let o = if w = "gm" then Op2GlobalMin else Op2GlobalMax in
+      let pf = (getst ()).pf2 in
+      let out = apply o in
+      let glob st o = match snd (stp st o) with O2Glob v -> v | x -> bad2 x in
+      (match out with O2Glob v -> put_f v | x -> bad2 x);
+      put_f (glob { sx = init fops; sy = init fops; pf2 = pf } o);
+      put_f (glob (init2 fops) Op2GlobalMin); put_f (glob (init2 fops) Op2GlobalMax); true
   | "Q" -> let ((a, b), (c, d)) = (tab ()).t2_obj.o2_dom in put_f a; put_f b; put_f c; put_f d; true
   | "P" -> let f = num r in ignore (apply (Op2SetPrefactor f)); put_f (getst ()).pf2; true
   | "U" -> let f = num r in ignore (apply (Op2Multiply f)); put_f (getst ()).pf2; true
